@@ -108,6 +108,14 @@ def _order_amplitudes(
     ])
 
 
+def _unfold_poolsums(expr: sp.Expr) -> sp.Expr:
+    new_expr = expr
+    for node in sp.postorder_traversal(expr):
+        if isinstance(node, PoolSum):
+            new_expr = new_expr.xreplace({node: node.evaluate()})
+    return new_expr
+
+
 def _to_parameter_values(mapping: Mapping[sp.Basic, ParameterValue]) -> ParameterValues:
     return ParameterValues(mapping)
 
@@ -156,15 +164,8 @@ class HelicityModel:
         definitions with `amplitudes`.
         """
 
-        def unfold_poolsums(expr: sp.Expr) -> sp.Expr:
-            new_expr = expr
-            for node in sp.postorder_traversal(expr):
-                if isinstance(node, PoolSum):
-                    new_expr = new_expr.xreplace({node: node.evaluate()})
-            return new_expr
-
         intensity = self.intensity.evaluate()
-        intensity = unfold_poolsums(intensity)
+        intensity = _unfold_poolsums(intensity)
         return intensity.xreplace(self.amplitudes)
 
     def rename_symbols(
@@ -454,7 +455,16 @@ class HelicityAmplitudeBuilder:
 
         amplitude = self.config.spin_alignment.formulate_amplitude(self.reaction)
         spin_projections = collect_spin_projections(self.reaction)
-        return PoolSum(sp.Abs(amplitude) ** 2, *spin_projections.items())
+        intensity = PoolSum(sp.Abs(amplitude) ** 2, *spin_projections.items())
+        self.__define_missing_amplitudes(intensity)
+        return intensity
+
+    def __define_missing_amplitudes(self, intensity: PoolSum) -> None:
+        """Define amplitudes of spin combinations without any transition as zero."""
+        unfolded_intensity = _unfold_poolsums(intensity.evaluate())
+        for symbol in unfolded_intensity.atoms(sp.Indexed):
+            if symbol not in self.__ingredients.amplitudes:
+                self.__ingredients.amplitudes[symbol] = sp.S.Zero
 
     def __register_amplitudes(self, transition_group: list[StateTransition]) -> None:
         transition_by_topology = group_by_topology(transition_group)
